@@ -11,13 +11,13 @@ from .. import kf
 ID = "C02"
 NEEDS_MODEL = True
 LEVEL = "exploration"
-N = {"quick": 640, "thorough": 16000}
+N = {"quick": 1280, "thorough": 16000}
 FORCE = [None, None, None, "three-level", "nway-above-uniform", "contracted-outer",
          "size1", "size-big"]
 
 
 def classify(spec, problems):
-    return kf.kf1_take_in_sum(spec, problems) or kf.classify_name_error(spec, problems)
+    return kf.classify_plain(spec, problems)
 
 
 def gen_case(tier, seed, shard, i):
